@@ -17,13 +17,14 @@ theorem loadLoop_sections (kind : SrcKind) (o : IdxOpts) (src tail : Bytes) (dOf
     src = pre ++ sectionsBytes rem ++ tail → rem.length < fuel →
     (∀ b ∈ rem, b.idxOk o) →
     dOff ≤ pre.length →
+    pre.length + (sectionsBytes rem).length < 2 ^ 63 →   -- positions fit an int64 (any real file)
     ((dSize = 0 ∧ tail = []) ∨
      (dSize ≠ 0 ∧ pre.length + (sectionsBytes rem).length - dOff = dSize)) →
     loadLoop kind o src dOff dSize fuel pre.length acc = .ok (acc ++ keptRecords o (pre.length - dOff) rem) := by
   intro rem
   induction rem with
   | nil =>
-    intro pre acc fuel hsrc hf _ hle hend
+    intro pre acc fuel hsrc hf _ hle _ hend
     cases fuel with
     | zero => omega
     | succ f =>
@@ -38,7 +39,7 @@ theorem loadLoop_sections (kind : SrcKind) (o : IdxOpts) (src tail : Bytes) (dOf
           simp only [sectionsBytes, List.flatMap_nil, List.length_nil, Nat.add_zero] at he; omega
         simp [c, keptRecords]
   | cons b tl ih =>
-    intro pre acc fuel hsrc hf hok hle hend
+    intro pre acc fuel hsrc hf hok hle hsz hend
     cases fuel with
     | zero => omega
     | succ f =>
@@ -79,8 +80,13 @@ theorem loadLoop_sections (kind : SrcKind) (o : IdxOpts) (src tail : Bytes) (dOf
         cases kind with
         | seekable =>
           simp only
+          have hsz' : pre.length + sectionSize b < 2 ^ 63 := by
+            rw [sectionsBytes_cons, List.length_append, hseclen] at hsz; omega
           have : ¬ ((((pre.length + uvarintSize (b.cid.byteLen + b.data.length) + b.cid.byteLen : Nat) : Int)
-              + (((b.cid.byteLen + b.data.length : Nat) : Int) - (b.cid.byteLen : Int))) < 0) := by omega
+              + (((b.cid.byteLen + b.data.length : Nat) : Int) - (b.cid.byteLen : Int))) < 0 ∨
+              (((pre.length + uvarintSize (b.cid.byteLen + b.data.length) + b.cid.byteLen : Nat) : Int)
+              + (((b.cid.byteLen + b.data.length : Nat) : Int) - (b.cid.byteLen : Int))) ≥ 2 ^ 63) := by
+            simp only [sectionSize] at hsz'; omega
           simp only [this, ↓reduceIte]
           congr 1
           simp only [sectionSize]; omega
@@ -103,6 +109,7 @@ theorem loadLoop_sections (kind : SrcKind) (o : IdxOpts) (src tail : Bytes) (dOf
         rw [← hpl]
         rw [ih (pre ++ sectionBytes b) _ f (by rw [hsrc, sectionsBytes_cons]; simp) (by simpa using hf)
               (fun x hx => hok x (by simp [hx])) (by rw [hpl]; omega)
+              (by rw [hpl]; rw [sectionsBytes_cons, List.length_append, hseclen] at hsz; omega)
               (by
                 rcases hend with ⟨h0, ht⟩ | ⟨h0, he⟩
                 · exact Or.inl ⟨h0, ht⟩
@@ -120,6 +127,7 @@ theorem loadLoop_sections (kind : SrcKind) (o : IdxOpts) (src tail : Bytes) (dOf
         rw [← hpl]
         rw [ih (pre ++ sectionBytes b) _ f (by rw [hsrc, sectionsBytes_cons]; simp) (by simpa using hf)
               (fun x hx => hok x (by simp [hx])) (by rw [hpl]; omega)
+              (by rw [hpl]; rw [sectionsBytes_cons, List.length_append, hseclen] at hsz; omega)
               (by
                 rcases hend with ⟨h0, ht⟩ | ⟨h0, he⟩
                 · exact Or.inl ⟨h0, ht⟩
@@ -136,7 +144,8 @@ namespace Car
 /-- LoadIndex over a CARv1 payload (either reader kind): exactly the reference records. -/
 theorem loadIndexRecords_v1 (kind : SrcKind) (o : IdxOpts) (roots : Option (List Cid)) (bs : List Block)
     (hwf : (CarHeader.mk roots 1).wf) (hmax : (encodeHeaderBody ⟨roots, 1⟩).length ≤ o.maxHeader)
-    (h63 : (encodeHeaderBody ⟨roots, 1⟩).length < 2 ^ 63) (hok : ∀ b ∈ bs, b.idxOk o) :
+    (h63 : (encodeHeaderBody ⟨roots, 1⟩).length < 2 ^ 63) (hok : ∀ b ∈ bs, b.idxOk o)
+    (hsz : (payload roots bs).length < 2 ^ 63) :
     loadIndexRecords kind o (payload roots bs) = .ok (keptRecords o (headerSize ⟨roots, 1⟩) bs) := by
   unfold loadIndexRecords payload
   rw [readHeader_encode o.maxHeader ⟨roots, 1⟩ _ hwf hmax h63]
@@ -147,7 +156,7 @@ theorem loadIndexRecords_v1 (kind : SrcKind) (o : IdxOpts) (roots : Option (List
   have := loadLoop_sections kind o (encodeHeader ⟨roots, 1⟩ ++ sectionsBytes bs) [] 0 0 bs
     (encodeHeader ⟨roots, 1⟩) [] ((encodeHeader ⟨roots, 1⟩ ++ sectionsBytes bs).length + 1)
     (by simp) (by have := sectionsBytes_length_ge bs; simp only [List.length_append]; omega) hok
-    (by omega) (Or.inl ⟨rfl, rfl⟩)
+    (by omega) (by simpa [payload] using hsz) (Or.inl ⟨rfl, rfl⟩)
   rw [this]
   simp [headerSize]
 
@@ -202,6 +211,7 @@ theorem loadIndexRecords_v2 (kind : SrcKind) (o : IdxOpts) (dp ip : Nat) (roots 
     ((pragma ++ ((finalHeader dp ip (payload roots bs).length hasIdx fi).bytes ++ (zeros dp ++ (payload roots bs ++ tail)))).length + 1)
     (by simp [payload]) (by rw [hlen]; have := sectionsBytes_length_ge bs; simp only [payload, List.length_append]; omega) hok
     (by rw [hplen]; omega)
+    (by rw [hplen]; have := lok.iOff; simp only [payload, List.length_append] at this ⊢; omega)
     (Or.inr ⟨by omega, by rw [hplen]; simp only [payload, List.length_append]; omega⟩)
   rw [hplen] at this
   rw [this]
